@@ -144,7 +144,17 @@ def rlookupD (t : List (String × String)) (k : String) : String :=
 def parseMapper (j : Json) : Except String Mapper := do
   let tags ← strPairs (← j.getObjVal? "tags")
   let attrs ← strPairs (← j.getObjVal? "attrs")
-  pure { mp := lookupD (tags ++ attrs), um := rlookupD tags, umA := rlookupD attrs }
+  -- `kidsX` = [[extended, key, declarations]…]: what `unmap_qname(key, xmlns=declarations)` answered
+  let kx ← match j.getObjVal? "kidsX" with
+    | .ok a => (← a.getArr?).toList.mapM fun e => do
+        let q ← e.getArr?
+        if h : q.size = 3 then pure ((← q[0].getStr?), (← q[1].getStr?), (← strPairs q[2])) else throw "kidsX entry"
+    | .error _ => pure []
+  let um := rlookupD tags
+  pure { mp := lookupD (tags ++ attrs), um, umA := rlookupD attrs,
+         umX := fun x k => match kx.find? (fun e => e.2.1 == k && e.2.2 == x) with
+           | some e => e.1
+           | none => um k }
 
 def optStr (j : Json) (k : String) (dflt : Option String) : Option String :=
   match j.getObjVal? k with
